@@ -102,8 +102,8 @@ def add_e2e_suite(c, samples):
     for _ in range(6 if c.tier == "quick" else 60):
         n = rng.randint(1, 5)
         users = rng.sample(USERS, n)
-        tables.append(("file", [(u, "pw" + u, rng.choice([None, "", "m1", "tenant" + u[0]])) for u in users]))
-    tables += [("file", [("eve", "plumless", "m1"), ("plumless", "pw1", None)]), ("static", ("admin", "plumless")),
+        tables.append(("file", [(u, "pw" + u, rng.choice([None, "", "m1", "tenant" + u[0], "m1/", "/m1", "a/b"])) for u in users]))
+    tables += [("file", [("ops", "pwops", "acme/"), ("dev", "pwdev", "acme"), ("qa", "pwqa", "/acme")]), ("file", [("eve", "plumless", "m1"), ("plumless", "pw1", None)]), ("static", ("admin", "plumless")),
                ("static", ("a" * 70, "s" * 70)), ("file", [("u" * 70, "pw1", "m1")]), ("static", ("admin", "secret")), ("static", ("", "b")), ("static", ("", "")), ("static", ("a", ""))]
     for kind, tab in tables:
         ops.append("reset 1")
